@@ -1,7 +1,9 @@
 //%unit mux_id
 //%features std
 use vstd::prelude::*;
+use vstd::std_specs::iter::IteratorSpec;
 verus! {
+//%include ../common/forloop.rs
 // ---- C16 kernel: "in-flight IDs are pairwise distinct" -- the id handed to a new request is not the
 //      key of any active request (send_message then inserts under that key) ----
 pub struct NetError { pub vp_msg: u64 }
@@ -119,5 +121,17 @@ fn question_check(case_randomization: bool, request_queries: &Vec<Query>, respon
     VpQuestionCheck::Accept
 }
 
+// ---- C16 kernel: "... carries the query's ID": the id test of UdpRequest::send (statement range of the receive loop) ----
+pub struct VpHeaderId { pub id: u16 }
+pub enum VpIdCheck { Go, Skip }
+fn id_check(msg_id: u16, response: &VpHeaderId) -> (r: VpIdCheck)
+    ensures r is Go <==> msg_id == response.id     // a datagram with another ID is skipped (the query goes on waiting), never accepted
+{
+//%expr crates/net/src/udp/udp_client_stream.rs :: impl<P: RuntimeProvider> Request for UdpRequest<P> :: send :: "if msg_id != response.id {" .. "continue; }"
+//%sub1 "continue;" => "return VpIdCheck::Skip;" # wrapper: `continue` of the enclosing receive loop
+//%mutant id_not_checked "if msg_id != response.id {" => "if false && msg_id != response.id {"
+//%end
+    VpIdCheck::Go
+}
 } // verus!
 fn main() {}
